@@ -227,8 +227,10 @@ class CasXmiDeserializer:
                     )
 
                 if is_instance_of_string_array_map[fs.type.name]:
-                    # We already parsed string arrays to a Python list of string
-                    # before, so we do not need to work more on this
+                    # We already parsed string arrays to a Python list of string before, so we do not need to work
+                    # more on this - unless the array is empty, which is written as an empty attribute
+                    if isinstance(value, str):
+                        fs[feature_name] = self._parse_primitive_array(fs.type, value)
                     continue
                 elif typesystem.is_primitive(feature.rangeType):
                     fs[feature_name] = self._parse_primitive_value(feature.rangeType, value)
@@ -590,6 +592,8 @@ class CasXmiSerializer:
                 #   <elements>likes cats</elements>
                 #   <elements>likes dogs</elements>
                 # </my:fs>
+                if not fs.elements:
+                    elem.attrib["elements"] = ""
                 for e in fs.elements:
                     child = etree.SubElement(elem, "elements")
                     child.text = e
